@@ -150,6 +150,10 @@ namespace Dune {
           eigenvalues[0] = q + 2 * p * cos(phi + (2*pi/3));
           eigenvalues[1] = 3 * q - eigenvalues[0] - eigenvalues[2];     // since trace(matrix) = eig1 + eig2 + eig3
 
+          // In exact arithmetic eigenvalues[0] <= eigenvalues[1] <= eigenvalues[2]; round-off errors can
+          // break this order for (nearly) coinciding eigenvalues.
+          std::sort(eigenvalues.begin(), eigenvalues.end());
+
           return r;
         }
       }
